@@ -30,6 +30,9 @@ type c20PumpRes struct {
 type c20Pump struct {
 	Results  []c20PumpRes
 	SignalAt int // >= 0: one SIGINT is delivered before this result (the attack is stopped, the pump keeps draining)
+	// Burst > 0: instead of Results, this many results (a few label sets, built here) are waiting in the results
+	// channel already when the pump starts, so that it runs at the full speed of its loop
+	Burst int `json:",omitempty"`
 }
 
 func runC20Pump(c c20Pump) error {
@@ -39,7 +42,16 @@ func runC20Pump(c c20Pump) error {
 		return err
 	}
 	atk := vegeta.NewAttacker()
-	res := make(chan *vegeta.Result)
+	res := make(chan *vegeta.Result, c.Burst)
+	if c.Burst > 0 {
+		c.Results = make([]c20PumpRes, c.Burst)
+		for i := range c.Results {
+			c.Results[i] = c20PumpRes{Method: []string{"GET", "POST"}[i%2], URL: fmt.Sprintf("http://burst.test/%d", i%5), Code: []uint16{200, 200, 503}[i%3], In: uint64(i % 1000), LatencyMS: i % 50}
+			if c.Results[i].Code == 503 {
+				c.Results[i].Err = "503 Service Unavailable"
+			}
+		}
+	}
 	sig := make(chan os.Signal)
 	encoded := 0
 	enc := vegeta.Encoder(func(*vegeta.Result) error { encoded++; return nil })
@@ -132,6 +144,16 @@ func runC20Pump(c c20Pump) error {
 		}
 	}
 	return nil
+}
+
+func TestC20PumpBurst(t *testing.T) {
+	vh.Check(t, 1, 6, func(t *rapid.T) {
+		c := c20Pump{SignalAt: -1, Burst: rapid.SampledFrom([]int{50000, 100000, 200000}).Draw(t, "burst")}
+		vh.Case("C20.pump", fmt.Sprintf("burst-%d", c.Burst), true, "burst")
+		if err := runC20Pump(c); err != nil {
+			vh.Fail(t, "C20", "C20.pump", c, fmt.Errorf("%d results waiting in the channel when the pump starts: %v", c.Burst, err))
+		}
+	})
 }
 
 func TestC20Pump(t *testing.T) {
